@@ -83,6 +83,11 @@ def bits_needed(fr):
 
 def close(a, b, tol=1e-9):
     """|a-b| <= tol*max(1,|b|) with b the exact value; evaluated in Fractions where possible."""
+    import math
+    if not isinstance(a, Fraction) and not math.isfinite(float(a)):
+        return False
+    if not isinstance(b, Fraction) and not math.isfinite(float(b)):
+        return False
     fa = Fraction(float(a)) if not isinstance(a, Fraction) else a
     fb = Fraction(float(b)) if not isinstance(b, Fraction) else b
     return abs(fa - fb) <= Fraction(tol) * max(1, abs(fb))
